@@ -216,7 +216,55 @@ def ts8(facts, rep):
             rep.ok(rule, key, b.loc(sorts[0]), '%d pushes, %d reader(s) all behind the sort' % (len(pushes), len(readers)))
 
 
+PO6_AUDIT = {
+    'QGramIndex::qgram_matches|index:|index(arg1.address,arg2)<std::vec::Vec<usize>>':
+        'callers pass codes yielded by self.ranks.qgrams(self.q, ..), which are < 2^(q*width) = address.len() - 1 (CS-1)',
+    'QGramIndex::qgram_matches|overflow-add:usize|arg2,1': 'qgram < 2^(q*width) <= usize::MAX / 2',
+    'QGramIndex::qgram_matches|index:|index(arg1.address,Add(arg2,1).0)<std::vec::Vec<usize>>': 'address has code space + 1 entries',
+    'QGramIndex::qgram_matches|index:|index(arg1.pos,Range::Range{Index<I>>::index(arg1.address,arg2),Index<I>>::index(arg1.address,Add(arg2,1).0)})<std::vec::Vec<usize>>':
+        'address is a prefix sum whose last entry is pos.len(): address[c] <= address[c+1] <= pos.len()',
+    'QGramIndex::matches|overflow-add:usize|x0,x1': 'text / pattern positions plus q stay far below usize::MAX',
+    'QGramIndex::matches|overflow-add:usize|x0.count,1': 'at most one hit per (pattern position, text position)',
+    'QGramIndex::matches|overflow-sub:isize|x0,x1': 'difference of two positions < isize::MAX taken in isize',
+    'QGramIndex::exact_matches|overflow-sub:i32|x0,x1': 'difference of two positions taken in i32 (sequences shorter than 2^31)',
+    'QGramIndex::exact_matches|overflow-add:usize|x0,x1': 'positions plus q stay far below usize::MAX',
+    'QGramIndex::exact_matches|overflow-sub:usize|x0.pattern.stop,x1': 'pattern.stop = i + q >= q',
+    'QGramIndex::exact_matches|overflow-add:usize|Sub(x0.pattern.stop,x1).0,1': 'stop - q + 1 <= stop',
+}
+
+
+def po6(facts, rep):
+    from . import eng_po
+    rule = 'PO-6'
+    rep.rule(rule, 'panic obligations of the q-gram index queries (qgram_matches, matches, exact_matches): every MIR Assert and '
+                   'may-panic call is discharged or audited; in particular a diagonal (text position - pattern position) must '
+                   'be computed in a signed type, because hits with text position < pattern position are legitimate')
+    total = 0
+    for nm in ('qgram_matches', 'matches', 'exact_matches'):
+        b = facts.method(QI, nm)
+        if b is None:
+            rep.missing(rule, QI + '::' + nm, 'not found')
+            continue
+        rep.analysed_body(b)
+        ia = eng_po.Intervals(b, facts).run()
+        seen = {}
+        for o in eng_po.obligations(b, ia):
+            total += 1
+            key = 'QGramIndex::%s|%s:%s|%s' % (nm, o['kind'], o.get('ty', '') if o['kind'].startswith('overflow') else '', o['ops'])
+            seen[key] = seen.get(key, 0) + 1
+            k2 = key + ('#%d' % seen[key] if seen[key] > 1 else '')
+            if o['discharged']:
+                rep.ok(rule, k2, o['where'], 'interval analysis')
+            elif key in PO6_AUDIT:
+                rep.audited(rule, k2, o['where'], PO6_AUDIT[key])
+            else:
+                rep.bad(rule, key, o['where'], 'undischarged %s obligation on %s operands: %s' % (o['kind'], o.get('ty', '?'), o['detail']))
+    rep.floor(rule, 'obligations', total, 12)
+
+
 def run(facts, rep, ctx):
+    if ctx.get('flavor') != 'nochk':
+        po6(facts, rep)
     cs1(facts, rep)
     sb6(facts, rep)
     ts8(facts, rep)
